@@ -585,6 +585,8 @@ def _init():
 
 
 def run(ctx):
+    from .. import xfeat
+    xfeat.sweep(ctx, "C08")      # cross-feature compositions (pv/xfeat.py)
     budget, depth = (8, 3) if ctx.thorough else (7, 3)
     conds = CONDS
     all_trees = trees(budget, depth, conds)
@@ -658,6 +660,9 @@ def run(ctx):
 
 
 def replay(case):
+    if isinstance(case, dict) and case.get("xfeat"):
+        from .. import xfeat
+        return xfeat.replay(case, "C08")
     H.bind(case["p"])
     if "deep" in case:
         depth, falsepos, real = case["deep"]
